@@ -104,6 +104,20 @@ def family():
             return join(recs)
         return f
 
+    def xor_pair_sig_of(i):
+        """two signature digits altered by the SAME bit mask (both stay hex digits): every XOR- / sum-style folding comparison that
+        is not a byte-wise equality lets this through"""
+        def f(recs, enc):
+            h = recs[i][0]
+            k = h.index(b"chunk-signature=") + len(b"chunk-signature=")
+            sig = bytearray(h[k:k + 64])
+            pos = [j for j in range(64) if chr(sig[j]) in "0123456789bcde" and chr(sig[j] ^ 1) in "0123456789abcdef"][:2]
+            for j in pos:
+                sig[j] ^= 1
+            recs[i][0] = h[:k] + bytes(sig) + h[k + 64:]
+            return join(recs)
+        return f
+
     def f_final_from_other(recs, enc):
         other = enc("f" * 64)
         recs[-1] = other[-1]
@@ -113,6 +127,9 @@ def family():
                     ("chunk:final-signature-altered", "a signature digit of the final (empty) chunk altered", flip_sig_of(-1)),
                     ("chunk:final-spliced", "final chunk taken from an upload with another seed", f_final_from_other),
                     ("chunk:signature-altered", "a signature digit of the second chunk altered", f_flip_sig),
+                    ("chunk:signature-two-digits-same-mask", "two signature digits of the second chunk altered by the same bit mask", xor_pair_sig_of(1)),
+                    ("chunk:first-signature-two-digits-same-mask", "two signature digits of the first chunk altered by the same bit mask", xor_pair_sig_of(0)),
+                    ("chunk:final-signature-two-digits-same-mask", "two signature digits of the final chunk altered by the same bit mask", xor_pair_sig_of(-1)),
                     ("chunk:resized", "second chunk resized", f_size),
                     ("chunk:swapped", "first two chunks swapped", f_swap),
                     ("chunk:duplicated", "first chunk duplicated", f_dup),
